@@ -66,7 +66,7 @@ def generic(pid, work, tier, seed, cmd, tracespec, scripts, design, sigfn, rule,
             again |= {sigfn(v) for v in viol3 if owns(v)}
         conf = [v for v in mine if sigfn(v) in again]
         if not conf:
-            raise HarnessError("%s violations did not reproduce: %s" % (pid, sorted({sigfn(v) for v in mine})[:5]))
+            raise HarnessError("%s violations did not reproduce: %s; first observation: %s" % (pid, sorted({sigfn(v) for v in mine})[:5], json.dumps(mine[0]["event"])[:600]))
         mine = conf
     mine = mine + expected
     seen = set()
@@ -207,7 +207,7 @@ def c18(work, tier, seed):
         if "local" in c["auth"] and c["tlsDisabled"]: r.append("b")
         if "ntlm" in c["auth"] and "kerberos" in c["auth"]: r.append("c")
         if "kerberos" in c["auth"] and not c["keytab"]: r.append("d")
-        if c["signedSel"] and not c["queryKey"]: r.append("e")
+        if c["sel"] == "signed" and not c["queryKey"]: r.append("e")
         if c["nhosts"] == 0: r.append("f")
         return r
     canon = [c for c in cfgs if c["spell"] == "canon"]
@@ -220,6 +220,10 @@ def c18(work, tier, seed):
         for c in pick:
             key = (tuple(reasons(c)), tuple(sorted(c["auth"])))
             single.setdefault(key, c)
+            # the host list is needed whatever the selection mode, and every mode starts with one: per mode the
+            # configurations without a refusal reason and with the empty host list as the only one
+            if reasons(c) in ([], ["f"]):
+                single.setdefault((tuple(reasons(c)), c["sel"], c["nhosts"]), c)
         chosen = list(single.values())
         rest = [c for c in canon if len(reasons(c)) > 1]
         rng.shuffle(rest)
@@ -253,8 +257,8 @@ def c18(work, tier, seed):
             scripts.append({"id": "x%05d" % len(scripts), "kind": "cross", "key": key, "len": ln, "auth": ["openid"], "src": "file"})
     out, rep, res = generic("C18", work, tier, seed, "config", "ConfigTrace", scripts, design,
                             lambda v: "%s/%s/%s" % (v["guard"], v["a"], v["b"]),
-                            "Config.tla: the lattice {auth subset x TLS x tokenauth x selection x query key x keytab x host count} = 1440 configurations with the refusal table (design). Conformance: the real binary is started under "
-                            "(quick) every configuration with at most one refusal reason per auth subset from file, environment and both plus a sample of multi-reason ones, (thorough) all 1440 x {file, env, both}; "
+                            "Config.tla: the lattice {auth subset x TLS x tokenauth x selection mode (roundrobin, signed, unsigned, any, an undocumented word) x query key x keytab x host count} x keyword spellings with the refusal table (design). Conformance: the real binary is started under "
+                            "(quick) every configuration with at most one refusal reason per auth subset from file, environment and both plus a sample of multi-reason ones, (thorough) all of them x {file, env, both}; "
                             "outcome = exit vs listening; keys of length 0/1/31/32: what instance A mints (access cookie, session cookie, user token) is presented to instance B started from the same configuration; TLC judges with Config!Refuse / KeyKept",
                             jobs=16)
     return out
